@@ -25,6 +25,7 @@ type ReplayCase struct {
 	Result string      `json:"native_result,omitempty"`
 	Quick  bool        `json:"quick"`
 	Seed   uint64      `json:"seed"`
+	Repeat int         `json:"repeat,omitempty"`
 }
 
 const replayTestTmpl = `package %s
@@ -40,6 +41,7 @@ func TestVerifReplay(t *testing.T) {
 		entry string
 		quick bool
 		seed  uint64
+		rep   int
 		vals  []uint64
 	}{
 %s	}
@@ -50,13 +52,16 @@ func TestVerifReplay(t *testing.T) {
 					fmt.Printf("VERIF-REPLAY %%s panic: %%v\n", c.id, r)
 				}
 			}()
-			verifVals = c.vals
-			verifPos = 0
-			verifQuickFlag, verifSeedVal = c.quick, c.seed
-			switch c.entry {
-%s			default:
-				fmt.Printf("VERIF-REPLAY %%s noentry\n", c.id)
-				return
+			// schedule-dependent models are replayed repeatedly with real goroutines
+			for it := 0; it < c.rep; it++ {
+				verifVals = c.vals
+				verifPos = 0
+				verifQuickFlag, verifSeedVal = c.quick, c.seed
+				switch c.entry {
+%s				default:
+					fmt.Printf("VERIF-REPLAY %%s noentry\n", c.id)
+					return
+				}
 			}
 			fmt.Printf("VERIF-REPLAY %%s passed\n", c.id)
 		}()
@@ -87,7 +92,11 @@ func runReplays(cases []*ReplayCase, verbose bool) error {
 		var rows, sw strings.Builder
 		entries := map[string]bool{}
 		for _, c := range cs {
-			fmt.Fprintf(&rows, "\t\t{%q, %q, %v, %d, []uint64{", c.ID, c.Entry, c.Quick, c.Seed)
+			rep := c.Repeat
+			if rep < 1 {
+				rep = 1
+			}
+			fmt.Fprintf(&rows, "\t\t{%q, %q, %v, %d, %d, []uint64{", c.ID, c.Entry, c.Quick, c.Seed, rep)
 			for _, v := range c.Vals {
 				fmt.Fprintf(&rows, "%#x,", v.Bits)
 			}
@@ -100,7 +109,7 @@ func runReplays(cases []*ReplayCase, verbose bool) error {
 		}
 		sort.Strings(es)
 		for _, e := range es {
-			fmt.Fprintf(&sw, "\t\t\tcase %q:\n\t\t\t\t%s()\n", e, e)
+			fmt.Fprintf(&sw, "\t\t\t\tcase %q:\n\t\t\t\t\t%s()\n", e, e)
 		}
 		ov[filepath.Join(repoDir, p, "zz_verif_replay_test.go")] = []byte(fmt.Sprintf(replayTestTmpl, name, rows.String(), sw.String()))
 		// materialise overlay
